@@ -215,7 +215,7 @@ func genRejected(rt *rapid.T) (string, []string) {
 	f := lexgen.Features{StringStartsWithDoubledQuote: false, TrailingComment: true, Comments: true}
 	switch rapid.IntRange(0, 9).Draw(rt, "kind") {
 	case 0, 1, 2, 3, 4: // single-token corruption
-		g := sqlgen.New(rt, sqlgen.AllFeatures())
+		g := sqlgen.New(rt, sqlgen.FullFeatures())
 		toks := sqlgen.Statement(g).Toks
 		if len(toks) < 2 {
 			toks = append(toks, sqlgen.Tok{Text: "x"})
@@ -234,7 +234,7 @@ func genRejected(rt *rapid.T) (string, []string) {
 		}
 		return sqlgen.SQL(r.Toks), cl
 	case 5, 6: // lexical garbage at a known stage
-		g := sqlgen.New(rt, sqlgen.AllFeatures())
+		g := sqlgen.New(rt, sqlgen.FullFeatures())
 		prefix := sqlgen.SQL(sqlgen.Statement(g).Toks)
 		bad := rapid.SampledFrom([]string{"'unterminated", "\"unterminated", "`unterminated", "'bad \\q escape'", "1.", "12e", "^", "\\", "{", "\x01", "$$never closed", "$t$ x $u$", "\"a\nb\""}).Draw(rt, "lexbad")
 		sep := rapid.SampledFrom([]string{" ", "\n", "\n\n  ", " /* c */ "}).Draw(rt, "lexsep")
